@@ -489,13 +489,13 @@ def conv_analysis(line, st):
                                             s(bn), gl([s(t) for t in csv(tags)]), gb(nocmd == "1"))))
         return app("CGraph", rootc(f[1]), gl(nodes))
     one = {"clean": "CClean", "esc": "CEsc"}
-    two = {"join": "CJoin", "within": "CWithin", "outpath": "COutpath"}
+    two = {"join": "CJoin", "within": "CWithin"}
     if f[0] in one and len(f) == 2:
         return app(one[f[0]], s(f[1]))
     if f[0] in two and len(f) == 3:
         return app(two[f[0]], s(f[1]), s(f[2]))
-    if f[0] == "ws" and len(f) == 4:
-        return app("CWs", rootc(f[1]), s(f[2]), s(f[3]))
+    if f[0] in ("ws", "outpath") and len(f) == 4:
+        return app({"ws": "CWs", "outpath": "COutpath"}[f[0]], rootc(f[1]), s(f[2]), s(f[3]))
     raise Unsupported(f[0])
 
 
